@@ -908,7 +908,7 @@ def network_simplex_core(node_arc_data, spanning_tree, graph, max_iter):
     if solution_status == ProblemStatus.OPTIMAL:
         for e in range(graph.n_arcs, graph.n_arcs + graph.n_nodes):
             if flow[e] != 0:
-                if np.abs(flow[e]) > EPSILON:
+                if np.abs(flow[e]) > NET_SUPPLY_ERROR_TOLERANCE:
                     return ProblemStatus.INFEASIBLE
                 else:
                     flow[e] = 0
